@@ -512,6 +512,13 @@ func (cr *c20Run) stepIncoming(nm enc.Name, lifeMs int, ev *c20Event) {
 		body = append(body, tlvwalk.TLV(0x0c, natBytes(uint64(lifeMs)))...)
 	}
 	in := tlvwalk.TLV(5, body)
+	if cr.r.Intn(3) == 0 { // the Interest arrives inside a link-protocol packet with a PIT token, as a forwarder sends it
+		tok := make([]byte, []int{1, 6, 8}[cr.r.Intn(3)])
+		cr.r.Read(tok)
+		in = tlvwalk.TLV(0x64, append(tlvwalk.TLV(0x62, tok), tlvwalk.TLV(0x50, in)...))
+		ev.LP = true
+		cr.c.Count("incoming_interests_lp_wrapped", 1)
+	}
 	before := len(cr.incoming)
 	if pi := h.Guard(func() { _ = cr.face.Feed(in) }); pi != nil {
 		cr.fail("C20:panic:interest:"+pi.Frame+":"+pi.Class, "engine panicked on an incoming Interest: "+pi.Value, nil)
